@@ -245,7 +245,7 @@ func VerifC03Classify() {
 	w, slots := c03World(nslots, true)
 	w.Chunk = []int{0, 1, 7}[verifrt.Choice("chunk", verifrt.Param("chunks", 1))]
 	VerifUseWorld(w, 2)
-	c03Check(slots, 0, verifrt.Choice("budget", verifrt.Param("maxbudget", 2)+1))
+	c03Check(slots, 0, verifrt.Int("budget", 0, verifrt.Param("maxbudget", 2)))
 	c03CheckRequests()
 	verifrt.Reach("end")
 }
@@ -257,7 +257,7 @@ func VerifC03History() {
 	w, slots := c03World(nslots, false)
 	VerifUseWorld(w, 1+verifrt.Choice("cachesize", 2))
 	// the client fetches everything with one fixed redirect budget
-	budget := verifrt.Choice("budget", verifrt.Param("maxbudget", 2)+1)
+	budget := verifrt.Int("budget", 0, verifrt.Param("maxbudget", 2))
 	ngets := verifrt.Param("gets", 2)
 	for g := 0; g < ngets; g++ {
 		i := verifrt.Choice("slot", nslots)
